@@ -352,6 +352,16 @@ def isolation_path(I, res, prop, s1, s2, cap, policy, keep=True):
     res.witnesses += 1
     for p, ref, sname in ((p1, refs[0], s1), (p2, refs[1], s2)):
         d.compare(ref, summary(W, p), "together", cause_of(sname) + (":evicted" if p.pid in W.evictions else ""))
+    if not keep:
+        # default retention under cache pressure: whatever happened to the cache entry, a finished process leaves no rows
+        from .subflow import _rows
+        for p in (p1, p2):
+            if p.done():
+                np_ = len([x for x in _rows(I, W, "procs") if x["id"] == p.pid])
+                nt = len([x for x in _rows(I, W, "tasks") if x["pid"] == p.pid])
+                if np_ or nt:
+                    d.viol("rows-left:finished-process-under-cache-pressure%s" % (":evicted" if p.pid in W.evictions else ""),
+                           "process %s delivered its terminal event but %d process / %d task rows remain (default configuration, cache capacity %s)" % (p.name, np_, nt, cap))
     # nothing crosses process ids
     for m in W.messages:
         if m["pid"] not in ("pA", "pB"):
